@@ -74,6 +74,9 @@ pub const VALID_EXPRS: &[&str] = &[
     // 55: Roman numerals (upper and lower case, as numbers and as identifiers)
     "<math><mn>XIV</mn><mo>+</mo><mn>VII</mn><mo>=</mo><mn>XXI</mn></math>",
     "<math><mi>x</mi><mo>=</mo><mn>iv</mn><mo>+</mo><mi mathvariant='normal'>XII</mi><mo>+</mo><mn>IX</mn></math>",
+    // 57: primes grouped in their own mrow; a mixed-number look-alike followed by a group
+    "<math><mrow><mi>f</mi><mrow><mo>'</mo><mo>'</mo></mrow><mo>=</mo><mn>2</mn></mrow></math>",
+    "<math><mn>3</mn><mn>1</mn><mo>/</mo><mrow><mi>a</mi><mo>+</mo><mi>b</mi></mrow></math>",
 ];
 
 /// Index of an expression with a character that only the *full* Unicode tables contain
